@@ -38,6 +38,7 @@ def run(chk):
                     chk.violation("spec-stream-pcm", "the model's RFC 9639 decoder reconstructs different PCM from a file the encoder produced",
                                   {"file_hex": x["bytes"], "expect": x["expect"], "model_samples": r.get("samples"), "cfg": x.get("cfg")})
         out["spec_stream_failures"] = bad
+        out.update(codec_common.encoder_model_tie(chk, c.cases))
         return out
 
     cu.simple_check(
@@ -45,7 +46,7 @@ def run(chk):
         rule="one evaluation = one encoded file (or raw frame) judged by the independent decoder and the direct structural checks; distinct by (PCM shape x length x configuration x writer); non-trivial = the file holds at least one audio frame",
         assumptions=[
             "refdec (harness/src/bin/c01_shared/refdec.rs) is written from the format description without the RFC text at hand; its one known deviation is accepting 1..=32 bits per sample",
-            "the Coq Spec decoder (integrator) is the primary judge once available; until then the emitted cases are only produced, not diffed",
+            "the Coq Spec validator (extracted) and refdec both judge every encoded file; the encoder model (Enc.enc_frame) must reproduce the frame bytes, its LPC parameters being read from the file (oracle)",
         ],
         evaluations=lambda s: cu.total(s, "files") + cu.total(s, "frames") + cu.total(s, "raw_stream_frames"),
         nontrivial=lambda s: cu.total(s, "files") + cu.total(s, "raw_stream_frames"),
